@@ -23,7 +23,10 @@ EXPLANATION = (
     "it is accepted when no method writes it after construction or every reader has written it first; element stores, `out=` arguments, unresolved callees and accesses "
     "through other receivers leave it undecided. __setstate__ may, besides rebuilding removed attributes, only reset lazily recomputed caches; any other write to "
     "restored state - directly or through a method whose transitive write set (effect summary through self.<attr> types) is non-empty - "
-    "changes what was saved. (R2) the pickle helper dumps the unfiltered state half of nnx.split(net) (provenance of the dumped object through "
+    "changes what was saved. An attribute that __setstate__ computes from restored plain attributes must be a function of them: when one call of a public method "
+    "provably moves it (ring cursor step, capacity >= 2) while every input keeps its value (not written, or a saturating counter `min(x + 1, E)` at its bound E, "
+    "nothing before the two statements leaves the method), two states the buffer passes through agree on the inputs and differ in the attribute, so one of them "
+    "reloads differently; anything else about a recomputed value stays undecided. (R2) the pickle helper dumps the unfiltered state half of nnx.split(net) (provenance of the dumped object through "
     "reaching definitions and device moves) and load merges the loaded object with the given graphdef on every path to the return. "
     "(R3) both checkpoint writers save the unfiltered module state and wait for completion before publishing the path; restore reads into a "
     "target that is the model's own state structure (an untargeted restore returns string-keyed dicts whose leaf order is the sorted key "
@@ -994,6 +997,273 @@ def _restore_form(x, dparam):
     return None
 
 
+PURE_SCALAR_FUNCS = ("min", "max", "int", "abs")
+
+
+def _self_inputs(e):
+    """Attributes X of the `self.X` reads when expression e is arithmetic over plain attributes of the object and literals only (a value that the
+    restored attributes determine); None: anything else (locals, elements, method calls, other objects)."""
+    out = set()
+    parent_attr = {id(n.value) for n in ast.walk(e) if isinstance(n, ast.Attribute)}
+    for n in ast.walk(e):
+        if isinstance(n, ast.Attribute):
+            if not (isinstance(n.value, ast.Name) and n.value.id == "self" and isinstance(n.ctx, ast.Load)) or id(n) in parent_attr:
+                return None
+            out.add(n.attr)
+        elif isinstance(n, ast.Name):
+            if n.id != "self" and n.id not in PURE_SCALAR_FUNCS:
+                return None
+        elif isinstance(n, ast.Call):
+            if not (isinstance(n.func, ast.Name) and n.func.id in PURE_SCALAR_FUNCS and not n.keywords and not any(isinstance(a, ast.Starred) for a in n.args)):
+                return None
+        elif not isinstance(n, (ast.BinOp, ast.UnaryOp, ast.Constant, ast.operator, ast.unaryop, ast.expr_context, ast.IfExp, ast.Compare, ast.cmpop, ast.BoolOp, ast.boolop)):
+            return None
+    return out
+
+
+def _plus_one(e, attr):
+    """e is `self.attr + 1` / `1 + self.attr`."""
+    if isinstance(e, ast.BinOp) and isinstance(e.op, ast.Add):
+        for a, b in ((e.left, e.right), (e.right, e.left)):
+            if dotted(a) == f"self.{attr}" and isinstance(b, ast.Constant) and type(b.value) is int and b.value == 1:
+                return True
+    return False
+
+
+def _advance_modulus(v, attr):
+    """The attribute X when v is `(self.attr + 1) % self.X`: a ring cursor step; for a capacity of two or more the new value differs from the old one."""
+    if isinstance(v, ast.BinOp) and isinstance(v.op, ast.Mod) and _plus_one(v.left, attr) and isinstance(v.right, ast.Attribute) and dotted(v.right.value) == "self" and v.right.attr != attr:
+        return v.right.attr
+    return None
+
+
+def _saturation_bound(v, attr):
+    """The bound expression E when v is `min(self.attr + 1, E)` (either order), E arithmetic over other attributes: a counter that stays at E once it got there."""
+    if isinstance(v, ast.Call) and isinstance(v.func, ast.Name) and v.func.id == "min" and len(v.args) == 2 and not v.keywords:
+        for a, b in ((v.args[0], v.args[1]), (v.args[1], v.args[0])):
+            if _plus_one(a, attr):
+                ins = _self_inputs(b)
+                if ins is not None and attr not in ins and not any(isinstance(n, ast.Call) for n in ast.walk(b)):
+                    return b, ins
+    return None
+
+
+def _attr_stores(fn, attr):
+    """Statements of fn (nested functions included) that store into self.<attr> or its elements, or delete it."""
+    out = []
+    for s in ast.walk(fn):
+        tg = []
+        if isinstance(s, ast.Assign):
+            tg = s.targets
+        elif isinstance(s, (ast.AugAssign, ast.AnnAssign)):
+            tg = [s.target]
+        elif isinstance(s, ast.Delete):
+            tg = s.targets
+        elif isinstance(s, (ast.For, ast.AsyncFor)):
+            tg = [s.target]
+        elif isinstance(s, (ast.With, ast.AsyncWith)):
+            tg = [i.optional_vars for i in s.items if i.optional_vars is not None]
+        elif isinstance(s, ast.NamedExpr):
+            tg = [s.target]
+        for t in tg:
+            for tt in ast.walk(t):
+                base = tt
+                while isinstance(base, (ast.Subscript, ast.Starred)):
+                    base = base.value
+                if dotted(base) == f"self.{attr}" and isinstance(getattr(tt, "ctx", None), (ast.Store, ast.Del)):
+                    out.append(s)
+                    break
+            else:
+                continue
+            break
+    return out
+
+
+def _step_changes_only(repo, cq, fn, attr, inputs):
+    """Evidence that one call of method fn changes `self.attr` while every attribute in `inputs` keeps its value - in the state where the saturating
+    counter among them sits at its bound.  Returns a text (the witness) or None (no evidence; never a claim that there is no such step).
+
+    Read: the only store to `attr` in fn is an unconditional top-level `self.attr = (self.attr + 1) % self.X` (a different value for X >= 2); every input
+    is either not written by fn at all or written only by an unconditional top-level `self.I = min(self.I + 1, E)` with E over attributes fn does not
+    write (at I == E the assignment stores E again); the methods fn calls write neither; nothing before the two statements leaves the method or tests
+    the attributes involved (so the saturated state runs through them)."""
+    if any(isinstance(n, ast.Call) and dotted(n.func) == "super" for n in ast.walk(fn)):
+        return None
+    if any(isinstance(n, (ast.FunctionDef, ast.AsyncFunctionDef, ast.Lambda, ast.Global, ast.Nonlocal, ast.Try, ast.While)) for x in fn.body for n in ast.walk(x)):
+        return None
+    pp = positional_params(fn)
+    if not pp or pp[0] != "self" or fn.decorator_list:
+        return None
+    if any(isinstance(n, ast.Attribute) and dotted(n) in ("self.__dict__",) for n in ast.walk(fn)) or any(isinstance(n, ast.Call) and dotted(n.func) in ("setattr", "vars", "delattr") for n in ast.walk(fn)):
+        return None
+    st = _attr_stores(fn, attr)
+    if len(st) != 1 or not any(st[0] is x for x in fn.body) or not isinstance(st[0], ast.Assign) or len(st[0].targets) != 1 or dotted(st[0].targets[0]) != f"self.{attr}":
+        return None
+    modulus = _advance_modulus(st[0].value, attr)
+    if modulus is None:
+        return None
+    # what the callees write
+    callee_roots = set()
+    for n in ast.walk(fn):
+        if isinstance(n, ast.Call):
+            if any(_bare_name(a_.value if isinstance(a_, (ast.Starred, ast.keyword)) else a_, "self") for a_ in list(n.args) + list(n.keywords)):
+                return None           # the object is handed on
+            if isinstance(n.func, ast.Attribute) and dotted(n.func.value) == "self":
+                try:
+                    callee_roots |= {w.split(".")[0] for w in _write_set(repo, cq, n.func.attr)}
+                except AnalysisError:
+                    return None
+                cm = repo.method(cq, n.func.attr)
+                if cm is None or any(isinstance(y, (ast.Raise, ast.Assert)) for y in ast.walk(cm[1])):
+                    return None       # a callee that may refuse the saturated state
+    if ({attr, modulus} | set(inputs)) & callee_roots or "__dict__" in callee_roots:
+        return None
+    if _attr_stores(fn, modulus):
+        return None
+    key_stmts = [st[0]]
+    saturating = []
+    for i_ in sorted(inputs):
+        s_i = _attr_stores(fn, i_)
+        if not s_i:
+            continue
+        if len(s_i) != 1 or not any(s_i[0] is x for x in fn.body) or not isinstance(s_i[0], ast.Assign) or len(s_i[0].targets) != 1 or dotted(s_i[0].targets[0]) != f"self.{i_}":
+            return None
+        sb = _saturation_bound(s_i[0].value, i_)
+        if sb is None:
+            return None
+        if any(_attr_stores(fn, b_) for b_ in sb[1]) or sb[1] & callee_roots or attr in sb[1]:
+            return None
+        saturating.append((i_, sb[0]))
+        key_stmts.append(s_i[0])
+    if len(saturating) > 1:
+        return None
+    # the saturated state reaches both statements: nothing before them returns / raises, no earlier test or assertion reads the attributes involved
+    last = max(fn.body.index(x) for x in key_stmts)
+    involved = {f"self.{attr}"} | {f"self.{i_}" for i_, _ in saturating}
+    for x in fn.body[:last + 1]:
+        for n in ast.walk(x):
+            if isinstance(n, (ast.Return, ast.Raise, ast.Yield, ast.YieldFrom, ast.Await)):
+                return None
+            tests = []
+            if isinstance(n, (ast.If, ast.IfExp, ast.While)):
+                tests.append(n.test)
+            elif isinstance(n, ast.Assert):
+                tests.append(n.test)
+            elif isinstance(n, ast.comprehension):
+                tests += n.ifs
+            elif isinstance(n, ast.Match):
+                return None
+            for t in tests:
+                reads = {dotted(a_) for a_ in ast.walk(t) if isinstance(a_, ast.Attribute)}
+                if isinstance(n, ast.Assert) and reads & involved:
+                    return None
+                if not isinstance(n, ast.Assert) and reads & involved and any(isinstance(y, (ast.Return, ast.Raise, ast.Continue, ast.Break)) for y in ast.walk(n)):
+                    return None
+    sat_txt = "; ".join(f"`self.{i_} = {short(next(s for s in key_stmts[1:] if dotted(s.targets[0]) == 'self.' + i_).value, 50)}` stores `{short(e_, 30)}` again once self.{i_} == {short(e_, 30)}" for i_, e_ in saturating)
+    untouched = sorted(set(inputs) - {i_ for i_, _ in saturating})
+    txt = f"`{short(st[0], 60)}` moves `{attr}` to another slot (for self.{modulus} >= 2)"
+    if sat_txt:
+        txt += f" while {sat_txt}"
+    if untouched:
+        txt += f" and writes none of {untouched}"
+    return txt
+
+
+def r1_recomputed_state(ck, repo, nf, cq):
+    """R1, a necessary condition of "what __setstate__ recomputes equals what was saved": a value that __setstate__ computes from restored attributes is the
+    same for two states that agree on those attributes.  When one call of a method provably changes the attribute and none of the inputs, the saved value
+    is not a function of the inputs: for one of the two states the reloaded attribute differs from the saved one.  Only evidence is reported; everything
+    that is not read leaves the judgement to the rules above (undecided there)."""
+    if repo.method(cq, "__setstate__") is None:
+        return
+    try:
+        chain = _setstate_chain(repo, cq)
+        init_vals = _init_attr_values(repo, cq)
+    except AnalysisError:
+        return
+    # names of instance attributes __getstate__ mentions as keys: their pickled value may not be the attribute's value
+    gs = repo.method(cq, "__getstate__")
+    touched = set()
+    if gs is not None:
+        gmi = repo.cls(gs[0])._module
+        for n in ast.walk(gs[1]):
+            if isinstance(n, ast.Constant) and isinstance(n.value, str):
+                touched.add(n.value)
+            elif isinstance(n, ast.Name) and _key(gmi, n) is not None:
+                touched.add(_key(gmi, n))
+        # anything through which an entry could change without its key being written out: not read
+        dict_names = {t.id for n in ast.walk(gs[1]) if isinstance(n, ast.Assign) for t in n.targets if isinstance(t, ast.Name)}
+        for n in ast.walk(gs[1]):
+            if isinstance(n, ast.Call):
+                if dotted(n.func) == "super" or (isinstance(n.func, ast.Attribute) and n.func.attr in ("update", "setdefault", "clear", "popitem", "__setitem__", "__delitem__")):
+                    return
+                if any(isinstance(a_, ast.Name) and a_.id in dict_names for a_ in list(n.args) + [k_.value for k_ in n.keywords]):
+                    return
+                if isinstance(n.func, ast.Attribute) and dotted(n.func.value) == "self" and _attr_write_roots(repo, cq, n.func.attr):
+                    return
+            elif isinstance(n, ast.Subscript) and isinstance(n.ctx, (ast.Store, ast.Del)) and _key(gmi, n.slice) is None:
+                return
+            elif isinstance(n, ast.Attribute) and isinstance(n.ctx, (ast.Store, ast.Del)):
+                return
+    restored_at = None
+    for i, (owner, fn, x) in enumerate(chain):
+        pps = [p_ for p_ in positional_params(fn) if p_ != "self"]
+        if not pps:
+            return
+        if restored_at is None and _restore_form(x, pps[0]) is not None:
+            restored_at = i
+    if restored_at is None:
+        return
+    for i, (owner, fn, x) in enumerate(chain):
+        if i <= restored_at or not (isinstance(x, ast.Assign) and len(x.targets) == 1 and isinstance(x.targets[0], ast.Attribute) and dotted(x.targets[0].value) == "self"):
+            continue
+        a = x.targets[0].attr
+        if a not in init_vals or _is_dynamic_class(init_vals[a][0]) or _is_dynamic_class(x.value):
+            continue
+        inputs = _self_inputs(x.value)
+        if not inputs or a in inputs:
+            continue
+        # the inputs hold their saved values when the assignment runs; the assignment decides the final value of the attribute
+        if inputs & touched:
+            continue
+        others = [y for j, (_, _, y) in enumerate(chain) if j != i and j != restored_at]
+        if any(_attr_stores(ast.Module(body=[y], type_ignores=[]), n_) for y in others for n_ in inputs | {a}):
+            continue
+        if any(isinstance(n, ast.Call) and isinstance(n.func, ast.Attribute) and (dotted(n.func.value) or "").split(".")[0] == "self" and n.func.attr not in ("items", "keys", "values", "get")
+               for y in others for n in ast.walk(y)):
+            continue
+        if any(isinstance(n, ast.Call) and (dotted(n.func) in ("setattr", "delattr", "vars", "object.__setattr__") or any(_bare_name(a_, "self") for a_ in list(n.args) + [k_.value for k_ in n.keywords]))
+               for y in others for n in ast.walk(y)):
+            continue
+        omi = repo.cls(owner)._module
+        names = []
+        for c in repo.mro(cq):
+            for ch in repo.cls(c).body:
+                if isinstance(ch, ast.FunctionDef) and ch.name not in names and ch.name not in NON_ENTRY:
+                    names.append(ch.name)
+        for nm in names:
+            if nm.startswith("_") and not (nm.startswith("__") and nm.endswith("__")):
+                continue          # the states before and after a private helper are not states in which the object can be saved
+            m = repo.method(cq, nm)
+            if m is None:
+                continue
+            w = _step_changes_only(repo, cq, m[1], a, inputs)
+            if w is not None:
+                ck.ob("R1-pickling-symmetry", cq, f"recomputed-is-function-of-inputs:{a}", False,
+                      f"__setstate__ computes self.{a} = {short(x.value, 50)} from the restored {sorted(inputs)}; {m[0].rsplit('.', 1)[1]}.{nm}: {w}",
+                      f"`{a}` is recomputed on reload from {sorted(inputs)}, but one call of {nm} changes `{a}` and leaves all of them as they are: two states "
+                      f"the buffer passes through agree on {sorted(inputs)} and differ in `{a}`, so for one of them the reloaded `{a}` is not the saved one (a wrapped ring does not continue at the slot the saved buffer would write next)",
+                      loc(omi, x))
+                break
+
+
+def _attr_write_roots(repo, cq, meth):
+    try:
+        return {w.split(".")[0] for w in _write_set(repo, cq, meth)}
+    except AnalysisError:
+        return {"?"}
+
+
 def r1_buffers(ck, repo, nf):
     mod = repo.module(MODQ)
     classes = [f"{MODQ}.{n}" for n, d, _m2 in repo.module_members(MODQ) if isinstance(d, ast.ClassDef)]
@@ -1183,6 +1453,7 @@ def r1_buffers(ck, repo, nf):
                       "" if ok else f"__setstate__ overwrites `{a}`, which was saved: the reloaded object differs from the saved one", loc(omi, x))
     for cq in classes:
         ck.guard(one_class, cq)
+        ck.guard(r1_recomputed_state, ck, repo, nf, cq)
     ck.floor("state-pairs", n_pairs[0], 5)
 
 
@@ -1305,6 +1576,14 @@ def _kinds(cfg, at, e, ctx=None, depth=0, structural=False):
                 ks = [("unknown", e.id)]
             out += [k for k in ks if k not in out]
         return out
+    if isinstance(e, ast.IfExp):
+        # `a if c else b` denotes one of its arms: what either arm can be (the test is not a value that flows on)
+        out = []
+        for arm in (e.body, e.orelse):
+            out += [k for k in _kinds(cfg, at, arm, ctx, depth + 1, structural) if k not in out]
+        return out
+    if isinstance(e, ast.NamedExpr):
+        return _kinds(cfg, at, e.value, ctx, depth + 1, structural)
     if isinstance(e, ast.Call):
         f = dotted(e.func)
         plain = not e.keywords and not any(isinstance(a, ast.Starred) for a in e.args)
@@ -1379,6 +1658,9 @@ def _alias_values(cfg, at, e, where, depth=0):
         if ds and all(d.kind == "param" for d in ds):
             return [(at, e)]
         raise AnalysisError(f"{where}: `{e.id}` has a definition this check cannot follow (unrecognised form)")
+    if isinstance(e, ast.IfExp) and depth < 6:
+        # `a if c else b`: the value is one of the arms
+        return _alias_values(cfg, at, e.body, where, depth + 1) + _alias_values(cfg, at, e.orelse, where, depth + 1)
     return [(at, e)]
 
 
@@ -1578,6 +1860,10 @@ MUTANTS = [
      "replace": "        d = dict(self.__dict__)\n        del d[\"Batch\"]\n        del d[\"episode_timesteps\"]\n        return d\n\n    def __setstate__(self, d):\n        self.__dict__.update(d)\n        self.Batch = namedtuple(\"Batch\", self.buffer)\n        self.episode_timesteps = 0\n"},
     {"id": "c19-priority-buffer-setstate-clears-last-indices", "file": _F, "rule": "R1-pickling-symmetry", "find": _PB_END,
      "replace": _PB_END + "\n    def __getstate__(self):\n        return dict(self.__dict__)\n\n    def __setstate__(self, d):\n        self.__dict__.update(d)\n        self.sampled_indices = np.empty(0, dtype=int)\n"},
+    {"id": "c19-cursor-dropped-derived-from-fill-level", "file": _F, "rule": "R1-pickling-symmetry", "nth": 0, "find": "        d = dict(self.__dict__)\n        del d[\"Batch\"]\n        return d\n\n    def __setstate__(self, d):\n        self.__dict__.update(d)\n        self.Batch = namedtuple(\"Batch\", self.buffer)\n",
+     "replace": "        d = dict(self.__dict__)\n        del d[\"Batch\"]\n        d.pop(\"insert_idx\")\n        return d\n\n    def __setstate__(self, d):\n        self.__dict__.update(d)\n        self.Batch = namedtuple(\"Batch\", self.buffer)\n        self.insert_idx = 0 if self.current_len == self.buffer_size else self.current_len\n"},
+    {"id": "c19-save-conditional-expression-dumps-graphdef", "file": _S, "rule": "R2", "find": "    if move_to_device is not None:\n        state = _put_on_device(state, move_to_device)\n", "replace": "    state = graphdef if move_to_device is None else _put_on_device(state, move_to_device)\n"},
+    {"id": "c19-load-conditional-return-raw-state", "file": _S, "rule": "R2", "find": "    return net\n", "replace": "    return net if move_to_device is None else state\n"},
 ]
 BENIGN = [
     {"id": "c19-b-getstate-pop", "file": _F, "nth": 0, "find": "        d = dict(self.__dict__)\n        del d[\"Batch\"]\n        return d", "replace": "        d = dict(self.__dict__)\n        d.pop(\"Batch\")\n        return d"},
@@ -1618,4 +1904,9 @@ BENIGN = [
         ("        self.sampled_indices = np.empty(0, dtype=int)\n", "        self.sampled_indices = np.empty(0, dtype=int)\n        self._total = None\n"),
         ("        self.priority[insert_idx] = self.max_priority\n", "        self.priority[insert_idx] = self.max_priority\n        self._total = None\n"),
         (_PB_END, _PB_END + "\n    def total(self, current_len):\n        if self._total is None:\n            self._total = float(np.sum(self.priority[:current_len]))\n        return self._total\n\n    def __getstate__(self):\n        d = dict(self.__dict__)\n        del d[\"_total\"]\n        return d\n\n    def __setstate__(self, d):\n        self.__dict__.update(d)\n        self._total = None\n")]},
+    {"id": "c19-b-derived-constant-dropped-and-recomputed-from-capacity", "file": _F, "edits": [
+        ("        self.current_len = 0\n        self.insert_idx = 0\n\n    def add_sample(self, **sample):", "        self.current_len = 0\n        self.insert_idx = 0\n        self._last_slot = self.buffer_size - 1\n\n    def add_sample(self, **sample):"),
+        ("        d = dict(self.__dict__)\n        del d[\"Batch\"]\n        return d\n\n    def __setstate__(self, d):\n        self.__dict__.update(d)\n        self.Batch = namedtuple(\"Batch\", self.buffer)\n\n\nclass SubtrajectoryReplayBuffer:", "        d = dict(self.__dict__)\n        del d[\"Batch\"]\n        del d[\"_last_slot\"]\n        return d\n\n    def __setstate__(self, d):\n        self.__dict__.update(d)\n        self.Batch = namedtuple(\"Batch\", self.buffer)\n        self._last_slot = self.buffer_size - 1\n\n\nclass SubtrajectoryReplayBuffer:")]},
+    {"id": "c19-b-save-conditional-expression-inverted", "file": _S, "find": "    if move_to_device is not None:\n        state = _put_on_device(state, move_to_device)\n", "replace": "    state = _put_on_device(state, move_to_device) if move_to_device is not None else state\n"},
+    {"id": "c19-b-load-conditional-return-same-module", "file": _S, "find": "    return net\n", "replace": "    return net if isinstance(net, nnx.Module) else net\n"},
 ]
